@@ -3,7 +3,8 @@
 import ast, builtins, os, sys
 root = sys.argv[1] if len(sys.argv) > 1 else "/repo"
 bad = 0
-for dp, dn, fns in os.walk(os.path.join(root, "nemoguardrails")):
+top = os.path.join(root, "nemoguardrails") if os.path.isdir(os.path.join(root, "nemoguardrails")) else root
+for dp, dn, fns in os.walk(top):
     for f in fns:
         if not f.endswith(".py"):
             continue
